@@ -57,7 +57,7 @@ def mc_runs(tier):
     q = tier == "quick"
     return [
         dict(module="Rar", tag="MC_Rar", cfg=RAR_CFG % (((5, 2, 2, 3, 9) if q else (7, 3, 3, 3, 12)) + ("period-1", "new", "own", RAR_PROPS))),
-        dict(module="RarStore", tag="MC_RarStore", cfg=STORE_CFG % ((5, 2, 2, 3, 1, 2, 2, 7) if q else (6, 3, 2, 3, 2, 2, 3, 8)), timeout=3000),
+        dict(module="RarStore", tag="MC_RarStore", cfg=STORE_CFG % ((5, 2, 2, 3, 1, 2, 2, 7) if q else (5, 3, 2, 3, 2, 2, 3, 8)), timeout=1500),
         # regression witnesses of the deviations found in (and repaired on) the pinned tree
         dict(module="Rar", tag="MC_Rar_witness_zero", cfg=RAR_CFG % (4, 2, 2, 3, 8, "zero", "new", "own", "PROPERTY StepsExactlyOnSchedule\n"),
              expect=("fail", "StepsExactlyOnSchedule"), workers=4),
